@@ -46,53 +46,81 @@ func rulePlanClassify(c *Ctx, r *Rep) {
 	entity := strings.Join(pv.Origins(decCall.Call.Args[2]), ",")
 	ct := c.NamedType("generator/db", "ChangeType")
 	n := 0
-	for _, b := range plan.Blocks {
-		for _, ins := range b.Instrs {
-			st, ok := ins.(*ssa.Store)
-			if !ok {
-				continue
-			}
-			fa, ok := st.Addr.(*ssa.FieldAddr)
-			if !ok || ct == nil || !types.Identical(fieldOfAddr(fa).Type(), ct) {
-				continue
-			}
-			k, ok := st.Val.(*ssa.Const)
-			if !ok {
-				r.Bad("change-kind-constant|"+fk, c.Pos(st.Pos()), "the kind of change is a constant chosen by a test", st.Val.String())
-				continue
-			}
-			n++
-			name := c.constName(ct, k.Value)
-			// the guard: <artifact of the entity>.Certificate != nil
-			var got []string
-			for _, g := range guardsOf(b) {
-				bin, isBin := g.Cond.(*ssa.BinOp)
-				if !isBin {
-					continue
+	// the kind is chosen in the planner or in a helper it calls (followed one call deep, parameters bound to the arguments)
+	type where struct {
+		fn   *ssa.Function
+		site ssa.CallInstruction
+	}
+	places := []where{{plan, nil}}
+	for _, ci := range callsIn(plan) {
+		if f := ci.Common().StaticCallee(); f != nil && c.InModule(f) && f.Blocks != nil && f != dec {
+			places = append(places, where{f, ci})
+		}
+	}
+	for _, pl := range places {
+		scan := func() {
+			for _, b := range pl.fn.Blocks {
+				for _, ins := range b.Instrs {
+					st, ok := ins.(*ssa.Store)
+					if !ok {
+						continue
+					}
+					fa, ok := st.Addr.(*ssa.FieldAddr)
+					if !ok || ct == nil || !types.Identical(fieldOfAddr(fa).Type(), ct) {
+						continue
+					}
+					k, ok := st.Val.(*ssa.Const)
+					if !ok {
+						r.Bad("change-kind-constant|"+fk, c.Pos(st.Pos()), "the kind of change is a constant chosen by a test", st.Val.String())
+						continue
+					}
+					n++
+					name := c.constName(ct, k.Value)
+					// the guard: <artifact of the entity>.Certificate != nil
+					var got []string
+					for _, g := range guardsOf(b) {
+						bin, isBin := g.Cond.(*ssa.BinOp)
+						if !isBin {
+							continue
+						}
+						kk, isK := bin.Y.(*ssa.Const)
+						if !isK || kk.Value != nil {
+							continue
+						}
+						o := strings.Join(uniq(pv.origins(bin.X, 0)), ",")
+						if !strings.Contains(o, "GetBuildArtifact(") || !strings.Contains(o, ")#0.") {
+							continue // e.g. the error of the lookup
+						}
+						present := (bin.Op == token.NEQ) == g.Truth
+						part := o[strings.LastIndex(o, ".")+1:]
+						okEntity := strings.Contains(o, "|"+entity+")#0.")
+						got = append(got, sprintf("%s present=%v ownArtifact=%v", part, present, okEntity))
+					}
+					sort.Strings(got)
+					switch {
+					case strings.HasSuffix(name, "ChangeReplace"):
+						r.Check(len(got) == 1 && got[0] == "Certificate present=true ownArtifact=true", "replace-iff-certificate|"+fk, c.Pos(st.Pos()), "ChangeReplace exactly when the entity's stored artifact has a certificate", strings.Join(got, "; "))
+					case strings.HasSuffix(name, "ChangeCreate"):
+						r.Check(len(got) == 1 && got[0] == "Certificate present=false ownArtifact=true", "create-iff-no-certificate|"+fk, c.Pos(st.Pos()), "ChangeCreate exactly when it has none", strings.Join(got, "; "))
+					default:
+						r.Bad("change-kind|"+fk, c.Pos(st.Pos()), "create or replace", name)
+					}
 				}
-				kk, isK := bin.Y.(*ssa.Const)
-				if !isK || kk.Value != nil {
-					continue
-				}
-				o := strings.Join(pv.Origins(bin.X), ",")
-				if !strings.Contains(o, "GetBuildArtifact(") || !strings.Contains(o, ")#0.") {
-					continue // e.g. the error of the lookup
-				}
-				present := (bin.Op == token.NEQ) == g.Truth
-				part := o[strings.LastIndex(o, ".")+1:]
-				okEntity := strings.Contains(o, "|"+entity+")#0.")
-				got = append(got, sprintf("%s present=%v ownArtifact=%v", part, present, okEntity))
-			}
-			sort.Strings(got)
-			switch {
-			case strings.HasSuffix(name, "ChangeReplace"):
-				r.Check(len(got) == 1 && got[0] == "Certificate present=true ownArtifact=true", "replace-iff-certificate|"+fk, c.Pos(st.Pos()), "ChangeReplace exactly when the entity's stored artifact has a certificate", strings.Join(got, "; "))
-			case strings.HasSuffix(name, "ChangeCreate"):
-				r.Check(len(got) == 1 && got[0] == "Certificate present=false ownArtifact=true", "create-iff-no-certificate|"+fk, c.Pos(st.Pos()), "ChangeCreate exactly when it has none", strings.Join(got, "; "))
-			default:
-				r.Bad("change-kind|"+fk, c.Pos(st.Pos()), "create or replace", name)
 			}
 		}
+		if pl.site == nil {
+			scan()
+			continue
+		}
+		bind := map[*ssa.Parameter][]string{}
+		for i, prm := range pl.fn.Params {
+			if i < len(pl.site.Common().Args) {
+				bind[prm] = pv.Origins(pl.site.Common().Args[i])
+			}
+		}
+		pv.binds = append(pv.binds, bind)
+		scan()
+		pv.binds = pv.binds[:len(pv.binds)-1]
 	}
 	if n < 2 {
 		r.Undecided("floor:change-kinds|"+fk, c.FnPos(plan), sprintf("%d change-kind stores found, expected 2", n))
